@@ -213,6 +213,10 @@ def call_obligation(ctx, rep, world, pr, p, b, bi, t, info, n_site, r32_sinks):
     seq = n_site.get(name, 0)
     n_site[name] = seq + 1
     args = info["args"]
+    if short in ("index", "index_mut") and info.get("const_range"):
+        lo_, hi_, n_ = info["const_range"]
+        rep.ok("range-index", p, "%s#%d" % (short, seq), "constant range %d..%d within [u8; %d]" % (lo_, hi_, n_), b.loc(bi))
+        return
     # ---- range indexing
     if short in ("index", "index_mut") and len(args) == 2:
         rng = strip(args[1])
@@ -253,6 +257,11 @@ def call_obligation(ctx, rep, world, pr, p, b, bi, t, info, n_site, r32_sinks):
             r = pr.rng(ix, bi)
             ok = r[1] < ln[0]
             rep.check(ok, "range-index", p, role, "index [%s,%s] < len %s" % (r[0], r[1], ln[0]), "index may be out of bounds: [%s,%s] vs length [%s,%s]" % (r[0], r[1], ln[0], ln[1]), b.loc(bi))
+        return
+    if short in ("clone_from_slice", "copy_from_slice") and info.get("const_copy"):
+        n_, srcv = info["const_copy"]
+        ln = pr.len_range(srcv, bi)
+        rep.check(ln == (n_, n_), "copy-len", p, "%s#%d" % (short, seq), "constant %d-byte destination range, source of length %s" % (n_, ln[0]), "copy_from_slice: destination has %d bytes, source length in [%s,%s]" % (n_, ln[0], ln[1]), b.loc(bi))
         return
     if short in ("clone_from_slice", "copy_from_slice"):
         role = "%s#%d" % (short, seq)
